@@ -49,6 +49,12 @@ PROPS = {
               "abs_diff_ne!: the scalar's abs_diff_eq with default epsilon, specified by ApproxSpecR (|a-b| <= eps); for Xq eps = 2^-52",
               "planar with fovy = 0 divides by zero in exact arithmetic (IEEE infinity in floats): float-only limit case, not claimed"],
              trusted=["rustc monomorphisation of the generic code at Xq"]),
+    "C17": P(17, assumptions=["model (coq/Model/Program.v) is hand-written; tied to /repo by the correspondence of this run (random register programs run by a Rust interpreter whose every instruction is executed in the chosen spelling)",
+              "that the four by-value/by-reference impls share one $body is a fact about macro expansion: the model has one body for them, the harness observes all four",
+              "scalar-on-the-left impls exist per primitive type: exercised natively for all twelve types (no overflow, no division by zero)"],
+             rule="200 random straight-line programs (length 1..10, 21 instruction kinds, every instruction in a randomly chosen existing spelling) over generic "
+                  "pairwise-distinct rational registers; non-trivial = tagged nt:program; distinct by hash of (registers, program)",
+             trusted=["rustc monomorphisation at Xq, i32, f64 and the twelve primitive types"]),
     "C18": P(18, assumptions=["model (coq/Model/Approx.v) is hand-written; tied to /repo by the exact-arithmetic correspondence of this run",
               "the scalar relations (abs_diff_eq / relative_eq / ulps_eq of the scalar type) are oracles: the theorems hold for an arbitrary scalar relation",
               "Basis2/Basis3 values with arbitrary matrices are built by transmuting a matrix (single-field struct) in the harness only",
